@@ -43,7 +43,7 @@ def coptz(z):
 
 
 def coq_params(p):
-    return '(mkp %s %s %s %s %s %s %s %s %s "%s")' % (
+    return '(mkp %s %s %s %s %s %s %s %s %s "%s"%%string)' % (
         C.cbool(p['optional']), C.cbool(p['sizeExt']), C.cbool(p['valueExt']), C.cbool(p['openType']),
         coptz(p['sizeLB']), coptz(p['sizeUB']), coptz(p['valueLB']), coptz(p['valueUB']), coptz(p['refValue']), p['refName'])
 
@@ -343,13 +343,13 @@ def go_ibits(n):
 def d2_bad(rng):
     """INTEGER range above 64K whose length-of-length field the encoder sizes differently from X.691"""
     if rng <= 65536: return False
-    right = max(1, (octs_unsigned(rng - 1) - 1).bit_length()) if octs_unsigned(rng - 1) > 1 else 1
-    right = (octs_unsigned(rng - 1) - 1).bit_length() if octs_unsigned(rng - 1) > 2 else 1
-    return go_ibits(go_bytelen_enc(rng)) != right
+    mx = octs_unsigned(rng - 1)
+    return go_ibits(go_bytelen_enc(rng)) != (mx - 1).bit_length()
 
 
 def prim_classes(kind, p, value):
-    """deviation classes a primitive (kind, parsed tag, value) falls in; value: int | (nbytes or nbits, data) | list"""
+    """known deviation classes (DESIGN.md C03 D2..D9, plus two found while building) a primitive
+    (kind, parsed tag, value or size) falls in"""
     out = []
     if kind == 'int':
         lb, ub, ext = p['valueLB'], p['valueUB'], p['valueExt']
@@ -358,24 +358,27 @@ def prim_classes(kind, p, value):
             rng = ub - lb + 1
             inroot = lb <= v <= ub
             if rng > 65536 and inroot:
-                if d2_bad(rng): out.append('int-range-lol')
-                if lb != 0: out.append('int-big-range-lb-nonzero')
-            if ext and v < lb: out.append('ext-below-root')
+                if d2_bad(rng): out.append('int-range-lol')                 # D2
+                if lb != 0: out.append('int-big-range-lb-nonzero')          # D3
+            if ext and v < lb: out.append('ext-below-root')                 # D7
         elif lb is not None:
-            if v >= lb: out.append('int-semi-constrained')
-        if lb is None and ub is not None:
-            out.append('int-ub-without-lb')
+            if v >= lb: out.append('int-semi-constrained')                  # D4
+        if lb is None and ub is not None: out.append('partial-bounds')      # D8
     elif kind in ('octets', 'string', 'bits', 'seqof'):
         lb, ub, ext = p['sizeLB'], p['sizeUB'], p['sizeExt']
         n = value
-        if ub is not None and ub >= 65536: out.append('size-ub>=65536')
-        if lb is not None and ub is None: out.append('size-lb-without-ub')
-        if lb is None and ub is not None: out.append('size-ub-without-lb')
-        if lb is None and ub is None and ext: out.append('sizeext-without-bounds')
-        if ext and lb is not None and ub is not None and n < lb: out.append('ext-below-root')
+        if ub is not None and ub >= 65536: out.append('size-ub>=65536')     # D5
+        if (lb is None) != (ub is None): out.append('partial-bounds')       # D8
+        if lb is None and ub is None and ext: out.append('partial-bounds')
+        if ext and lb is not None and ub is not None and n < lb: out.append('ext-below-root')   # D7
         if kind == 'bits' and lb is not None and ub is not None and lb == ub and ub < 65536 and n != ub and n <= 16 and not (ext and n > ub):
-            out.append('bitstring-fixed-wrong-length')
+            out.append('bitstring-fixed-wrong-length')                      # D6
         if n >= 16384: out.append('fragmented')
+        if kind == 'seqof' and n >= 128 and (ub is None or ub >= 65536 or (ext and n > ub)):
+            out.append('seqof-count-one-octet')                             # D5 (count & 0xff)
+        if lb == 0 and ub == 0 and n == 0 and kind != 'seqof': out.append('string-size-fixed-0')  # D9
+    elif kind == 'choice':
+        if p['valueUB'] == 0: out.append('choice-single-alternative')
     return out
 
 
@@ -634,16 +637,232 @@ class AperCheck(Check):
         info2["model_bad"] = len([i for i in bad_model if not (st.known(cases[i], obs[i]) and self.is_known(st.known(cases[i], obs[i])))])
         return info2
 
+    def findings(self):
+        fs = list(C.known_findings())
+        extra = os.environ.get("APER_FINDINGS_FILE")          # development aid only: entries not yet merged by the coordinator
+        if extra and os.path.exists(extra):
+            fs += json.load(open(extra))
+        return fs
+
     def is_known(self, k):
-        return any(f.get("key") == k and f.get("property") == self.pid and f.get("status") == "known" for f in C.known_findings())
+        return any(f.get("key") == k and f.get("property") == self.pid and f.get("status") == "known" for f in self.findings())
 
     def report(self, st, c, o, why, expected, write):
         """True when this is a violation (not a listed known finding)"""
         k = st.known(c, o)
         if k is not None and self.is_known(k):
-            self.known_finding(k, next(f["what"] for f in C.known_findings() if f.get("key") == k and f.get("property") == self.pid))
+            self.known_finding(k, next(f["what"] for f in self.findings() if f.get("key") == k and f.get("property") == self.pid))
             return False
         if write:
             self.violation({"theorem_or_stream": st.name, "input": st.go_case(c), "observed": o, "expected": expected, "why": why,
                             "candidate_class": k, "how_to_replay": "./check %s --replay <this file>" % self.pid})
         return True
+
+
+# ----------------------------------------------------------------------------- primitive constraint space
+def tag_of(kind, lb, ub, ext):
+    parts = []
+    v = kind in ('int', 'enum', 'choice')
+    if ext: parts.append('valueExt' if v else 'sizeExt')
+    if lb is not None: parts.append(('valueLB:%d' if v else 'sizeLB:%d') % lb)
+    if ub is not None: parts.append(('valueUB:%d' if v else 'sizeUB:%d') % ub)
+    return ",".join(parts)
+
+
+RANGES = sorted(set([1, 2, 3, 4, 5, 7, 8, 9, 15, 16, 17, 31, 32, 33, 63, 64, 65, 127, 128, 129, 254, 255, 256, 257, 258, 511, 512, 1000,
+                     4095, 4096, 32767, 32768, 65535, 65536, 65537, 65538, 2**17 - 1, 2**17, 2**17 + 1, 2**24 - 1, 2**24, 2**24 + 1,
+                     2**32 - 1, 2**32, 2**32 + 1, 4000000000001, 2**40 - 1, 2**40, 2**40 + 1, 2**48, 2**56 + 1]))
+
+
+def prim_cases(rng, tier):
+    """list of primitive encode cases over the constraint space (boundary values first)"""
+    cs = []
+    quick = tier == "quick"
+
+    def add(kind, p_lb, p_ub, ext, **kw):
+        c = dict(kind=kind, tag=tag_of(kind, p_lb, p_ub, ext), pre=rng.below(8), **kw)
+        cs.append(c)
+    # INTEGER: constrained around every power of two, values at and around the bounds
+    for R in RANGES:
+        for ext in (False, True):
+            lbs = [0] + ([rng.choice([1, -1, -R // 2, 1000, 2**31, -2**40])] if (not quick or rng.chance(1, 2)) else [])
+            for lb in lbs:
+                ub = lb + R - 1
+                vals = [lb, lb + 1, lb + R // 2, ub - 1, ub, ub + 1, lb - 1, lb + 255, lb + 256, lb + 65535, lb + 65536, ub + 70000]
+                if quick: vals = vals[:7] + [rng.choice(vals[7:])]
+                for v in sorted(set(vals)):
+                    if -2**62 < v < 2**62:
+                        add('int', lb, ub, ext, int=str(v))
+    # semi-constrained / unconstrained / ub only
+    for lb in (0, 1, -128, 5000):
+        for v in (lb, lb + 1, lb + 127, lb + 128, lb + 255, lb + 256, lb + 32767, lb + 32768, lb + 65535, lb + 65536, lb + 2**31, lb + 2**40, lb - 1):
+            add('int', lb, None, False, int=str(v))
+    for v in (0, 1, -1, 127, 128, -128, -129, 255, 256, 32767, 32768, -32768, -32769, 2**31 - 1, 2**31, -2**31 - 1, 2**47, -2**47 - 1, 2**62, -2**62):
+        add('int', None, None, False, int=str(v))
+        if rng.chance(1, 3): add('int', None, 100, False, int=str(v))
+    # ENUMERATED
+    for ub in (0, 1, 2, 3, 7, 8, 15, 16, 254, 255, 256, 300):
+        for ext in (False, True):
+            for v in sorted(set([0, 1, ub // 2, max(0, ub - 1), ub, ub + 1])):
+                add('enum', 0, ub, ext, int=str(v))
+    add('enum', None, None, False, int="0"); add('enum', 1, 3, False, int="2"); add('enum', 1, 3, False, int="0")
+    # BOOLEAN
+    for v in (0, 1):
+        add('bool', None, None, False, int=str(v))
+    # CHOICE index
+    for nalt in (1, 2, 3, 4, 5, 8, 9, 16, 17, 40):
+        for ext in (False, True):
+            for pres in sorted(set([0, 1, 2, nalt // 2, nalt - 1, nalt, nalt + 1])):
+                if pres < 0: continue
+                cs.append(dict(kind='choice', tag=tag_of('choice', 0, nalt - 1, ext), etag="valueLB:0,valueUB:255", nalt=nalt, pres=pres,
+                               int=str(rng.below(256)), pre=rng.below(8)))
+    cs.append(dict(kind='choice', tag="", etag="valueLB:0,valueUB:255", nalt=3, pres=1, int="7", pre=1))
+    cs.append(dict(kind='choice', tag="valueLB:0,valueUB:5", etag="valueLB:0,valueUB:255", nalt=3, pres=3, int="7", pre=2))
+    # sizes: OCTET STRING, PrintableString, BIT STRING, SEQUENCE OF
+    big = 300 if quick else 17000
+    size_constraints = [(None, None), (0, None), (1, None), (None, 10)]
+    for a, b in [(0, 0), (1, 1), (2, 2), (3, 3), (4, 4), (8, 8), (16, 16), (17, 17), (24, 24), (32, 32), (0, 1), (0, 3), (1, 3), (0, 7), (1, 8), (1, 150),
+                 (0, 254), (0, 255), (1, 256), (0, 256), (1, 1024), (1, 65535), (0, 65535), (0, 65536), (1, 65536), (1, 131072), (20, 40)]:
+        size_constraints.append((a, b))
+    for kind in ('octets', 'bits', 'seqof', 'string'):
+        for (lb, ub) in size_constraints:
+            for ext in (False, True):
+                lo = lb or 0
+                hi = ub if ub is not None else lo + 200
+                ns = [lo, lo + 1, (lo + hi) // 2, hi - 1, hi, hi + 1, lo - 1, 127, 128, 129, 2, 3, 16, 17]
+                if kind == 'string' and quick: ns = ns[:6]
+                if not quick: ns += [16383, 16384, 16385]
+                for n in sorted(set(ns)):
+                    if n < 0 or n > big: continue
+                    if kind == 'seqof' and n > 300: continue
+                    if kind in ('octets', 'string'):
+                        add(kind, lb, ub, ext, hex=rng.bytes(n).hex())
+                    elif kind == 'bits':
+                        nb = (n + 7) // 8; b = bytearray(rng.bytes(nb))
+                        if n % 8 and rng.chance(3, 4): b[-1] &= (0xff << (8 - n % 8)) & 0xff
+                        add(kind, lb, ub, ext, hex=bytes(b).hex(), nbits=n)
+                    else:
+                        et = rng.choice(["valueLB:0,valueUB:255", "valueLB:0,valueUB:7", "valueLB:0,valueUB:65535", "valueExt,valueLB:0,valueUB:3"])
+                        m = parse_tag(et)['valueUB']
+                        add(kind, lb, ub, ext, etag=et, ints=[str(rng.below(m + 1)) for _ in range(n)])
+    # BIT STRING with a byte slice that does not match BitLength
+    for (n, nb) in [(6, 0), (12, 1), (20, 2), (20, 4), (0, 1), (8, 2)]:
+        for (lb, ub) in [(6, 6), (20, 20), (0, 30), (None, None)]:
+            add('bits', lb, ub, False, hex=rng.bytes(nb).hex(), nbits=n)
+    return cs
+
+
+def prim_coq_type(c):
+    """Coq terms (ty, field-type) of the reflect.StructOf type of a primitive case"""
+    kind = c['kind']
+    ft = {'int': 'TInt', 'enum': 'TEnum', 'bool': 'TBool', 'octets': 'TOctets', 'string': 'TString', 'bits': 'TBits'}.get(kind)
+    if kind == 'seqof':
+        ft = '(TSlice (TStruct [("V"%%string, %s, TInt)]))' % coq_params(parse_tag(c.get('etag', '')))
+    elif kind == 'choice':
+        ep = coq_params(parse_tag(c.get('etag', '')))
+        ft = '(TStruct [("Present"%%string, p_empty, TInt)%s])' % "".join('; ("A%d"%%string, %s, TPtr TInt)' % (i, ep) for i in range(1, c['nalt'] + 1))
+    pre = "".join('("P%d"%%string, p_empty, TBool); ' % i for i in range(c['pre']))
+    return '(TStruct [%s("V"%%string, %s, %s)])' % (pre, coq_params(parse_tag(c['tag'])), ft)
+
+
+def prim_field_val(c, o=None):
+    """Coq [val] of the V field, from the case (encode) or from the decoder's output o"""
+    kind = c['kind']
+    src = o if o is not None else c
+    if kind == 'int': return "(VInt %s)" % cz(int(src['int']))
+    if kind == 'enum': return "(VEnum %d)" % int(src['int'])
+    if kind == 'bool': return "(VBool %s)" % C.cbool(int(src['int']) != 0)
+    if kind in ('octets', 'string'): return "(VOctets %s)" % C.cN(bytes.fromhex(src['hex']))
+    if kind == 'bits': return "(VBits %s %d)" % (C.cN(bytes.fromhex(src['hex'])), int(src['nbits']))
+    if kind == 'seqof': return "(VList [%s])" % ";".join("(VStruct [(VInt %s)])" % cz(int(x)) for x in src.get('ints') or [])
+    if kind == 'choice':
+        pres = int(src['pres'])
+        alts = ["VNil"] * c['nalt']
+        if 1 <= pres <= c['nalt'] and 'int' in src: alts[pres - 1] = "(VPtr (VInt %s))" % cz(int(src['int']))
+        return "(VStruct [(VInt %s)%s])" % (cz(pres), "".join(";" + a for a in alts))
+    raise ValueError(kind)
+
+
+def prim_coq_val(c, o=None):
+    if o is not None:
+        pre = "".join("(VBool %s); " % C.cbool(ch == '1') for ch in o.get('prebits', ''))
+    else:
+        pre = "".join("(VBool %s); " % C.cbool(i % 2 == 0) for i in range(c['pre']))
+    return "(VStruct [%s%s])" % (pre, prim_field_val(c, o))
+
+
+def prim_value_size(c):
+    kind = c['kind']
+    if kind in ('int', 'enum'): return int(c['int'])
+    if kind in ('octets', 'string'): return len(c['hex']) // 2
+    if kind == 'bits': return int(c['nbits'])
+    if kind == 'seqof': return len(c.get('ints') or [])
+    return 0
+
+
+def prim_ref_encode(c):
+    """independent X.691 encoding of a primitive case: bytes | raises Refuse / Frag"""
+    w = W()
+    for i in range(c['pre']): w.put(1 if i % 2 == 0 else 0, 1)
+    p = parse_tag(c['tag']); k = c['kind']
+    if k == 'int': enc_int(w, p['valueLB'], p['valueUB'], p['valueExt'], int(c['int']))
+    elif k == 'enum':
+        if p['valueLB'] is None or p['valueUB'] is None: raise Refuse('enum')
+        v = int(c['int'])
+        if not p['valueLB'] <= v <= p['valueUB']: raise Refuse('enum range')
+        if p['valueExt']: w.put(0, 1)
+        cwn(w, p['valueUB'] - p['valueLB'] + 1, v)
+    elif k == 'bool': w.put(1 if int(c['int']) else 0, 1)
+    elif k in ('octets', 'string'):
+        d = bytes.fromhex(c['hex']); enc_string(w, p['sizeLB'], p['sizeUB'], p['sizeExt'], d, len(d), False)
+    elif k == 'bits':
+        d = bytes.fromhex(c['hex']); n = int(c['nbits'])
+        if len(d) != (n + 7) // 8: raise Refuse('bits octets')
+        enc_string(w, p['sizeLB'], p['sizeUB'], p['sizeExt'], d, n, True)
+    elif k == 'seqof':
+        xs = [int(x) for x in c.get('ints') or []]; n = len(xs); lb = p['sizeLB'] or 0; ub = p['sizeUB']
+        inroot = n >= lb and (ub is None or n <= ub)
+        if p['sizeExt']:
+            w.put(0 if inroot else 1, 1)
+            if not inroot: lendet(w, n)
+        elif not inroot: raise Refuse('count')
+        if inroot: enc_len(w, lb, ub, n)
+        ep = parse_tag(c['etag'])
+        for x in xs: enc_int(w, ep['valueLB'], ep['valueUB'], ep['valueExt'], x)
+    elif k == 'choice':
+        pres = int(c['pres'])
+        if pres <= 0 or pres > c['nalt']: raise Refuse('present')
+        if p['valueUB'] is None or p['valueUB'] < 0 or pres - 1 > p['valueUB']: raise Refuse('choice')
+        if p['valueExt']: w.put(0, 1)
+        cwn(w, p['valueUB'] + 1, pres - 1)
+        ep = parse_tag(c['etag']); enc_int(w, ep['valueLB'], ep['valueUB'], ep['valueExt'], int(c['int']))
+    return w.out()
+
+
+def prim_same(c, o):
+    """does the decoder's output o carry the value of case c (up to BIT STRING padding bits)?"""
+    k = c['kind']
+    if o.get('prebits', '') != "".join('1' if i % 2 == 0 else '0' for i in range(c['pre'])): return False
+    if k in ('int', 'enum'): return int(o.get('int', -1 << 70)) == int(c['int'])
+    if k == 'bool': return int(o['int']) == (1 if int(c['int']) else 0)
+    if k in ('octets', 'string'): return o.get('hex') == c['hex']
+    if k == 'bits': return same_value({'hex': c['hex'], 'nbits': c['nbits']}, {'hex': o.get('hex', ''), 'nbits': o.get('nbits', -1)})
+    if k == 'seqof': return [int(x) for x in o.get('ints') or []] == [int(x) for x in c.get('ints') or []]
+    if k == 'choice': return int(o.get('pres', -1)) == int(c['pres']) and int(o.get('int', -1)) == int(c['int'])
+    return False
+
+
+def coq_dobs_prim(c, o):
+    if 'panic' in o: return "DPanic"
+    if 'err' in o: return "(DErr %d)" % errcode(o['err'])
+    return "(DOk %s)" % prim_coq_val(c, o)
+
+
+def coq_dobs_ngap(schema, root, o):
+    """observable of ngapdec / ngaprt / ngapfuzz as Coq [dobs]"""
+    r = o.get('r')
+    if 'panic' in o or 'decpanic' in o or r == 'panic': return "DPanic"
+    if r == 'timeout': return "DTimeout"
+    if 'err' in o or 'decerr' in o or r == 'err':
+        return "(DErr %d)" % errcode(o.get('err') or o.get('decerr') or o.get('msg') or '')
+    return "(DOk %s)" % schema.coq_val(schema.root[root]['Type'], o['value'])
